@@ -203,6 +203,11 @@ def borrow(res, module: str, rule_map: Dict[str, str], envs=None, only_if=None) 
         _IN_PROGRESS.add(module)
         try:
             _BORROW_CACHE[module] = importlib.import_module("jstat.rules." + module).check("quick")
+        except AnalysisError:
+            # the lender cannot analyse this tree: its own check fails closed (exit 2); the borrower keeps deciding
+            # its own obligations and simply receives nothing from it
+            from ..report import Result as _R
+            _BORROW_CACHE[module] = _R()
         finally:
             _IN_PROGRESS.discard(module)
     src = _BORROW_CACHE[module]
